@@ -107,7 +107,7 @@ Ltac snap_skip j s hs HB O W :=
     [ apply mon1_run_skip with (Hi := Hi_snap j); [exact HB | unfold Hi_snap; nomention]
     | exists hs; split; [reflexivity |];
       match goal with |- only (owner_snap ?s' ?jj) ?hh = true =>
-         replace (owner_snap s' jj) with (owner_snap s jj); [exact O|] end;
+         first [exact O | replace (owner_snap s' jj) with (owner_snap s jj); [exact O|]] end;
       destruct W as [WA WB]; unfold owner_snap, setn; proj;
       try (pose proof (WA j)); try (pose proof (WB j)); bool_lia ] ].
 
@@ -167,4 +167,33 @@ Proof.
       * exists hs. split; [reflexivity|].
         replace (owner_snap _ j) with (owner_snap s j); [exact O|].
         unfold owner_snap, setn; proj. destruct (Nat.eqb_spec j j0); [contradiction|reflexivity].
+Qed.
+
+(* ---- the state of a data file's writer goroutine (buffer, error state of the underlying file): its own *)
+Lemma fam_file n i : fam_ok n WFtrue (LFile i) (fun _ o => o = Some [HT (TF i)]).
+Proof. apply fam_const; [reflexivity|]. const_steps. Qed.
+
+(* ---- sourceState: only ever touched inside a critical section of sourceStateLock *)
+Lemma fam_state n :
+  fam_ok n WFtrue LState (fun _ o => exists hs, o = Some hs /\ only (HM MState) hs = true).
+Proof.
+  split; [exists [HM MState]; split; [reflexivity | apply only_one]|].
+  intros s o a s' ev _ (hs & -> & O) ST.
+  assert (HB : forall h, In h hs -> h = HM MState).
+  { intros h I. apply only_spec in O as [_ A]. exact (A h I). }
+  destruct a; simpl in ST.
+  all: break_step ST.
+  all: unfold wr, rd, nextacc.
+  all: try (solve [ exists (Some hs); split;
+                    [ apply mon1_run_skip with (Hi := fun h => h = HM MState); [exact HB | nomention]
+                    | exists hs; split; [reflexivity | exact O] ] ]).
+  all: pose proof (only_take TQ _ _ O) as OQ; pose proof (only_take TC _ _ O) as OC.
+  - eexists. split.
+    + repeat run1. rewrite (acc_ok1_only _ _ _ OQ). cbv beta iota.
+      rewrite run_cons, mon1_rel, rel1_cons_eq, (only_hmem _ _ OQ). reflexivity.
+    + eexists. split; [reflexivity | now apply only_give].
+  - eexists. split.
+    + repeat run1. rewrite (acc_ok1_only _ _ _ OC). cbv beta iota.
+      rewrite run_cons, mon1_rel, rel1_cons_eq, (only_hmem _ _ OC). reflexivity.
+    + eexists. split; [reflexivity | now apply only_give].
 Qed.
